@@ -6,7 +6,7 @@ shutdown), aiohttp.web_protocol (RequestHandler.shutdown / close / start).
 Models: lean/AioModel/C20.lean (lifecycle), lean/AioModel/C20Drain.lean (timed shutdown drain);
 theorems: lean/AioProps/C20.lean.
 """
-import asyncio, contextlib, inspect, itertools, math, re
+import asyncio, contextlib, inspect, itertools, math, random, re
 from collections import Counter
 from .common import vloop
 from .common.c20_drain import (check_drain, replay_drain, THEOREMS_DRAIN, RULE_DRAIN, generate_constants)
@@ -21,6 +21,8 @@ THEOREMS_LIFE = [
     "Aio.C20.run_app_eq_runner_when_startup_succeeds",
     "Aio.C20.cleanup_iff_started_tree_partial",
     "Aio.C20.root_contexts_always_cleaned",
+    "Aio.C20.teardowns_never_overlap",
+    "Aio.C20.context_teardowns_sequential",
     "Aio.C20.f16_run_app_setup_outside_try",
     "Aio.C20.run_app_failed_startup_never_cleans",
     "Aio.C20.subapp_contexts_skipped_after_failed_startup",
@@ -31,7 +33,9 @@ THEOREMS_LIFE = [
 THEOREMS = THEOREMS_LIFE + THEOREMS_DRAIN
 RULE = ("(a) lifecycle: application trees (root + up to 4 sub-applications, nesting <= 2) with 0-4 cleanup contexts per "
         "application (async-generator, @asynccontextmanager and class based), user handlers on on_startup/on_shutdown/"
-        "on_cleanup registered before/after add_subapp; every callback is ok | raises Exception | raises CancelledError; "
+        "on_cleanup registered before/after add_subapp; every callback is ok | raises Exception | raises CancelledError, logs its begin and its end and in between "
+        "suspends as the case's `susp` number says (never / one loop turn / staircase: later-started contexts take longer "
+        "virtual time to tear down / drawn per callback: 0-3 turns or 1-9 virtual ms); "
         "driven through AppRunner (setup;cleanup / setup / cleanup), web._run_app (cancelled while serving | site fails to "
         "start) and web.run_app itself; hand-made minimal cases first, then every single failing position of fixed shapes, "
         "then random tables; thorough adds all fail assignments of small shapes. distinct by table+entry; non-trivial when "
@@ -111,20 +115,62 @@ def table_line(entry, table):
     return " ".join(toks)
 
 
-def build_app(table, log):
-    """the real Application tree of a table, callbacks instrumented to write `log`"""
+def pause_plan(susp, tag):
+    """how long the user callback `tag` stays suspended between its begin and end events; a pure function of the
+    case's `susp` number: 0 never suspends (plain callbacks), 1 one loop turn everywhere, 2 staircase — the later a
+    context started the longer its teardown takes (virtual ms) —, >= 3 drawn per callback from that seed"""
+    if not susp:
+        return None
+    if susp == 1:
+        return ("turns", 1)
+    if susp == 2:
+        if tag[0] == "x":
+            a, i = tag[1:].split(".")
+            return ("sleep", 1 + 2 * int(i) + int(a))
+        return ("turns", 1)
+    r = random.Random(f"{susp}:{tag}")
+    k = r.random()
+    if k < 0.25:
+        return None
+    if k < 0.6:
+        return ("turns", r.randint(1, 3))
+    return ("sleep", r.randint(1, 9))
+
+
+async def _pause(plan):
+    if plan is None:
+        return
+    if plan[0] == "turns":
+        for _ in range(plan[1]):
+            await asyncio.sleep(0)
+    else:
+        await asyncio.sleep(plan[1] / 1000)
+
+
+def build_app(table, log, susp=0):
+    """the real Application tree of a table; every user callback logs its begin, suspends as `pause_plan` says,
+    logs its end (teardowns and handlers also when they raise) and returns / raises"""
     from aiohttp import web
     from contextlib import AbstractAsyncContextManager
     apps = [None] * len(table)
 
     def make_ctx(a, i, kind, fe, fx):
-        async def gen(app):
+        async def enter():
             log.append(f"n{a}.{i}")
+            await _pause(pause_plan(susp, f"n{a}.{i}"))
             _raise(fe, f"n{a}.{i}")
             log.append(f"N{a}.{i}")
-            yield
+
+        async def leave():
             log.append(f"x{a}.{i}")
+            await _pause(pause_plan(susp, f"x{a}.{i}"))
+            log.append(f"X{a}.{i}")
             _raise(fx, f"x{a}.{i}")
+
+        async def gen(app):
+            await enter()
+            yield
+            await leave()
         if kind == "gen":
             return gen
         if kind == "acm":
@@ -132,18 +178,17 @@ def build_app(table, log):
 
         class Cm(AbstractAsyncContextManager):
             async def __aenter__(self):
-                log.append(f"n{a}.{i}")
-                _raise(fe, f"n{a}.{i}")
-                log.append(f"N{a}.{i}")
+                await enter()
 
             async def __aexit__(self, *exc):
-                log.append(f"x{a}.{i}")
-                _raise(fx, f"x{a}.{i}")
+                await leave()
         return lambda app: Cm()
 
     def make_handler(prefix, hid, f):
         async def h(app):
             log.append(f"{prefix}{hid}")
+            await _pause(pause_plan(susp, f"{prefix}{hid}"))
+            log.append(f"{prefix.upper()}{hid}")
             _raise(f, f"{prefix}{hid}")
         return h
 
@@ -186,11 +231,11 @@ class _BadSock:
         raise SiteFail()
 
 
-async def run_entry(entry, table):
+async def run_entry(entry, table, susp=0):
     """-> (log, [canonical outcome…]) of one life of the real application"""
     from aiohttp import web
     log = []
-    app = build_app(table, log)
+    app = build_app(table, log, susp)
     kind, arg = entry.split(":")
     res = []
     if kind == "r":
@@ -204,7 +249,7 @@ async def run_entry(entry, table):
     else:
         socks = [_BadSock()] if arg == "1" else []
         t = asyncio.get_running_loop().create_task(web._run_app(app, sock=socks, print=None))
-        await asyncio.sleep(1.0)            # serving (or already failed)
+        await asyncio.sleep(50.0)           # serving (or already failed); start-up callbacks may take virtual time
         if not t.done():
             t.cancel()                      # what run_app does on SIGINT / SIGTERM
         try:
@@ -215,18 +260,18 @@ async def run_entry(entry, table):
     return log, res
 
 
-def run_real_run_app(table):
+def run_real_run_app(table, susp=0):
     """web.run_app itself on a virtual-time loop, stopped by GracefulExit after 1 s"""
     from aiohttp import web
     from aiohttp.web_runner import GracefulExit
     log = []
-    app = build_app(table, log)
+    app = build_app(table, log, susp)
     loop = vloop.VLoop()
     loop.stop_on_quiescence = False
 
     def stop():
         raise GracefulExit()
-    loop.call_later(1.0, stop)
+    loop.call_later(50.0, stop)
     try:
         web.run_app(app, sock=[], print=None, loop=loop, handle_signals=False)
         res = "cancelled"      # run_app swallows the cancellation it caused itself
@@ -340,6 +385,24 @@ def oracle_life(ctx, case, log, res):
                 sig = "C20/context-not-cleaned"
             ctx.violation(sig, case, f"context {c}: start-up completed but its cleanup code never ran "
                                      f"(entry {entry}, outcome {res}); log={log}")
+    # teardowns are sequential: the cleanup code of a context begins only after the cleanup code of every context that
+    # began its teardown before it is over ("reverse order" is about whole teardowns, not about their first statement)
+    open_ = []
+    for e in log:
+        if e[0] == "x":
+            if open_:
+                q, p = open_[-1], e[1:]
+                started_before = p in entered and q in entered and entered.index(p) < entered.index(q)
+                ctx.violation("C20/order/teardown-begins-before-later-started-context-finished" if started_before
+                              else "C20/order/teardowns-overlap", case,
+                              f"cleanup code of context {p} began while the cleanup code of context {q} was still running; log={log}")
+                break
+            open_.append(e[1:])
+        elif e[0] == "X" and e[1:] in open_:
+            open_.remove(e[1:])
+    else:
+        if open_:
+            ctx.violation("C20/teardown-not-finished", case, f"cleanup code of {open_} began but never ended; log={log}")
     # reverse order of start-up, among the contexts that were cleaned
     order = {c: k for k, c in enumerate(entered)}
     seq = [c for c in exits if c in order]
@@ -530,20 +593,26 @@ def origin_fail(table, origin):
 
 def check_life(ctx):
     rng = ctx.rng
-    cases = list(seed_cases())
+    seeds = list(seed_cases())
+    cases = [(e, t, 0) for e, t in seeds] + [(e, t, 2) for e, t in seeds]
+    # teardowns that take time (virtual ms, growing with the start-up position and the other way round), no failure
+    for tbl in (shape(4, None, handlers=False), shape(3, 2), shape_tree()):
+        for e in ("r:SC", "a:0", "R:0"):
+            for sp in (1, 2, 3, 4, 5):
+                cases.append((e, tbl, sp))
     # every single failing position of a few fixed shapes, through every entry
     for tbl in (shape(4, None), shape(3, 2), shape(2, 3), shape_tree()):
         for t in single_failures(tbl):
             for e in ENTRIES:
-                cases.append((e, t))
+                cases.append((e, t, 2))
     n_rand = 3000 if ctx.quick else 25000
     for k in range(n_rand):
         t = gen_table(rng, rng.choice([0.0, 0.08, 0.15, 0.3]))
         r = rng.random()
         e = "r:SC" if r < 0.45 else "a:0" if r < 0.75 else "a:1" if r < 0.87 else rng.choice(["r:S", "r:C", "r:CSC", "r:CS"]) if r < 0.93 else "R:0"
-        cases.append((e, t))
-    small = [(e, t) for t in all_small(3) for e in ("r:SC", "a:0")]
-    tree = [(e, t) for t in all_small_tree() for e in ("r:SC", "a:0")]
+        cases.append((e, t, rng.choice([0, 1, 2, 3 + rng.randrange(1000), 3 + rng.randrange(1000)])))
+    small = [(e, t, 3 + k % 7) for k, t in enumerate(all_small(3)) for e in ("r:SC", "a:0")]
+    tree = [(e, t, k % 3) for k, t in enumerate(all_small_tree()) for e in ("r:SC", "a:0")]
     if ctx.quick:
         cases += rng.sample(small, 200) + rng.sample(tree, 300)
     else:
@@ -556,18 +625,19 @@ def check_life(ctx):
 
     async def main():
         out = []
-        for e, t in cases:
-            out.append(None if e == "R:0" else await run_entry(e, t))
+        for e, t, sp in cases:
+            out.append(None if e == "R:0" else await run_entry(e, t, sp))
         return out
     res, excs, q = vloop.run(main)
     if res is None:
         raise RuntimeError("lifecycle batch did not finish (quiescent)")
-    for i, (e, t) in enumerate(cases):
+    for i, (e, t, sp) in enumerate(cases):
         if e == "R:0":
-            res[i] = run_real_run_app(t)
-    outs = ctx.model([table_line(model_entry(e), t) for e, t in cases])
-    for i, ((e, t), (log, r)) in enumerate(zip(cases, res)):
-        case = {"kind": "life", "entry": model_entry(e), "via": "run_app" if e == "R:0" else "direct", "table": t}
+            res[i] = run_real_run_app(t, sp)
+    outs = ctx.model([table_line(model_entry(e), t) for e, t, sp in cases])
+    for i, ((e, t, sp), (log, r)) in enumerate(zip(cases, res)):
+        case = {"kind": "life", "entry": model_entry(e), "via": "run_app" if e == "R:0" else "direct", "table": t, "susp": sp}
+        ctx.hit("life:susp=" + (str(sp) if sp < 3 else "drawn"))
         canon = f"log={','.join(log) or '-'} res={';'.join(r)} wf=1"
         if e == "R:0" and outs is not None and r == ["cancelled"]:
             # web.run_app (not modelled) swallows a CancelledError leaving _run_app after it cancelled the task itself
@@ -575,7 +645,7 @@ def check_life(ctx):
             if m and origin_fail(t, m.group(2)) == 2:
                 outs[i] = m.group(1) + "cancelled" + m.group(3)
         nctx = sum(len(d["ctxs"]) for d in t)
-        ctx.case(("life", e, t), nontrivial=nctx > 0, sample={"life": table_line(e, t), "impl": canon[:160]} if i % 397 == 0 else None)
+        ctx.case(("life", e, t, sp), nontrivial=nctx > 0, sample={"life": table_line(e, t), "impl": canon[:160]} if i % 397 == 0 else None)
         ctx.hit("life:entry=" + e)
         ctx.hit("life:apps=%d" % len(t))
         ctx.hit("life:outcome=" + ";".join(x.split(":")[0] + (":" + x.split(":")[1][0] if ":" in x else "") for x in r))
@@ -585,11 +655,11 @@ def check_life(ctx):
 
 
 def replay_life(ctx, case):
-    e, t = case["entry"], case["table"]
+    e, t, sp = case["entry"], case["table"], case.get("susp", 0)
     if case.get("via") == "run_app":
-        log, r = run_real_run_app(t)
+        log, r = run_real_run_app(t, sp)
     else:
-        (log, r), excs, q = vloop.run(lambda: run_entry(e, t))
+        (log, r), excs, q = vloop.run(lambda: run_entry(e, t, sp))
     oracle_life(ctx, case, log, r)
 
 
